@@ -10,6 +10,7 @@ import Upa.Impl.SetRepExc
 import Upa.Impl.ObjRep
 import Upa.Spec.Api
 import Upa.Spec.Form
+import Upa.Spec.Serializer
 /-
   Line-protocol driver: executes an operation file on the models (`Impl`, and `Spec` where the
   Standard has an answer) and prints one canonical line per operation: `<impl answer> ## <spec answer>`.
@@ -70,9 +71,15 @@ def dumpImpl (idna : Idna) (o : Option Url) : String :=
   match o with
   | some u => publicDump idna u ++ hiddenDump idna u
   | none => "I"
+/-- the Spec column: the Standard's URL serializer, origin and getter steps (Spec/Serializer.lean) on the Standard's
+    parse / setter result — no definition of `Impl` is involved in the values the property C01 / C03 name
+    (`path=` is the library's own `url::path()`; the flag fields are read off the record) -/
+def publicDumpSpec (idna : Idna) (u : Url) : String :=
+  s!"V href={hx (Spec.getHref u)} origin={hx (Spec.getOrigin idna u)} protocol={hx (Spec.getProtocol u)} username={hx (Spec.getUsername u)} password={hx (Spec.getPassword u)} host={hx (Spec.getHost u)} hostname={hx (Spec.getHostname u)} port={hx (Spec.getPort u)} pathname={hx (Spec.getPathname u)} search={hx (Spec.getSearch u)} hash={hx (Spec.getHash u)} path={hx (Spec.getPathname u ++ (match u.query with | some q => 0x3F :: q | none => []))} nulls={b01 u.host.isNone}{b01 u.port.isNone}{b01 u.query.isNone}{b01 u.fragment.isNone} ht={match u.host with | some h => hostKindCode h.kind | none => 0} op={b01 u.hasOpaquePath} pi={match u.port with | some p => toString p | none => "-1"} rpi={match u.port with | some p => toString p | none => (match defaultPort u.scheme with | some d => toString d | none => "-1")} sf={b01 u.isSpecial}{b01 u.isFile}{b01 (u.scheme == sHttp || u.scheme == sHttps)}{b01 u.hasCredentials}"
+
 def dumpSpec (idna : Idna) (o : Option Url) : String :=
   match o with
-  | some u => publicDump idna u
+  | some u => publicDumpSpec idna u
   | none => "I"
 
 /-- the params object of an invalid URL is not compared (after a move its list is a moved-from
